@@ -78,7 +78,9 @@ package resourcereservation
 //@     invariant (gpuGroupToSync in reservationPods) == hasRes(rsc, pods, rangeindex + 1)
 //@     invariant gpuGroupToSync in reservationPods ==> reservationPods[gpuGroupToSync] != nil && isRes(rsc, reservationPods[gpuGroupToSync]) && (exists j int :: 0 <= j && j <= rangeindex && reservationPods[gpuGroupToSync] == pods[j])
 //@     invariant (gpuGroupToSync in fractionPods) == hasLive(rsc, pods, rangeindex + 1)
-//@     invariant forall m int :: 0 <= m && m < len(fractionPods[gpuGroupToSync]) ==> fractionPods[gpuGroupToSync][m] != nil && isLive(rsc, fractionPods[gpuGroupToSync][m])
+//@     invariant forall m int :: 0 <= m && m < len(fractionPods[gpuGroupToSync]) ==> fractionPods[gpuGroupToSync][m] != nil
+//@     invariant forall m int :: 0 <= m && m < len(fractionPods[gpuGroupToSync]) ==> fractionPods[gpuGroupToSync][m].Namespace != rsc.namespace
+//@     invariant forall m int :: 0 <= m && m < len(fractionPods[gpuGroupToSync]) ==> fractionPods[gpuGroupToSync][m].Status.Phase == "Running" || fractionPods[gpuGroupToSync][m].Status.Phase == "Pending"
 //@     decreases len(pods) - rangeindex
 //@   loop 2
 //@     invariant forall k in visited :: (k in reservationPods) || (forall m int :: 0 <= m && m < len(fractionPods[k]) && fractionPods[k][m].Status.Phase == "Running" ==> gone(fractionPods[k][m]))
@@ -129,4 +131,121 @@ package resourcereservation
 //@   modifies fields(pod), labelRemovals()
 //@   ensures labelRemovals() == old(labelRemovals()) + 1
 //@   ensures pod.Name == old(pod.Name) && pod.Namespace == old(pod.Namespace) && pod.UID == old(pod.UID)
+//@ end
+
+// ---- findGPUIndexByGroup ------------------------------------------------------------------------
+// ASSUMED contract of List for a *v1.PodList: on success the list holds exactly what the options select; the two
+// options used by findGPUIndexByGroup are InNamespace(ns) (first option) and MatchingLabels{k: v}.
+//@ define podListOf(o ref) *v1.PodList = unbox(o, "*v1.PodList")
+// lastListCount(): number of pods returned by the most recent successful List
+//@ ghost lastListCount() int
+//@ define nsOpt(o ref) string = unbox(o, "client.InNamespace")
+//@ func sigs.k8s.io/controller-runtime/pkg/client.WithWatch.List
+//@   props C17
+//@   requires list != nil
+//@   modifies fields(podListOf(list)), lastListCount()
+//@   ensures result == nil && typeis(list, "*v1.PodList") ==> lastListCount() == len(podListOf(list).Items)
+//@   ensures result == nil && typeis(list, "*v1.PodList") && len(opts) > 0 && typeis(opts[0], "client.InNamespace") ==> (forall i int :: 0 <= i && i < len(podListOf(list).Items) ==> podListOf(list).Items[i].Namespace == nsOpt(opts[0]))
+//@ end
+
+// C17: "every pod bound into the group is given that reservation pod's device index": the index handed out for a
+// group is the run.ai/reserve_for_gpu_index annotation of a pod listed in the reservation namespace; "" (= create a
+// new reservation pod) only when no such pod is listed; a reservation pod without the annotation is an error.
+//@ func (*service).findGPUIndexByGroup
+//@   props C17
+//@   requires rsc != nil && rsc.kubeClient != nil
+//@   modifies lastListCount()
+//@   lemma [empty-index-means-nothing-listed] err == nil && gpuIndex == "" ==> lastListCount() == 0 || (len(pods.Items) > 0 && pods.Items[0].Annotations["run.ai/reserve_for_gpu_index"] == "")
+//@   lemma [index-comes-from-a-reservation-pod] err == nil && gpuIndex != "" ==> len(pods.Items) > 0 && pods.Items[0].Namespace == rsc.namespace && ("run.ai/reserve_for_gpu_index" in pods.Items[0].Annotations) && gpuIndex == pods.Items[0].Annotations["run.ai/reserve_for_gpu_index"]
+//@   ensures [error-carries-no-index] err != nil ==> gpuIndex == ""
+//@   lemma [listed-pod-without-annotation-is-an-error] len(pods.Items) > 0 && !("run.ai/reserve_for_gpu_index" in pods.Items[0].Annotations) ==> err != nil
+//@ end
+
+// ---- lock protocol (sequential) ---------------------------------------------------------------
+//@ import gm "github.com/NVIDIA/KAI-scheduler/pkg/binder/binding/resourcereservation/group_mutex"
+// the group-wide sync must only run under the group's lock: `requires` is proved at BOTH call sites
+// (SyncForGpuGroup and the label-patch failure path of ReserveGpuDevice).
+//@ func (*service).syncForGpuGroupWithLock
+//@   props C17
+//@   requires rsc != nil && rsc.kubeClient != nil
+//@   requires gm.held(gpuGroup)
+//@   modifies family(gone(nil)), lastListCount()
+//@   loop 1
+//@     invariant 0 <= rangeint_iter && rangeint_iter < len(podsList.Items)
+//@     invariant forall i int :: 0 <= i && i < len(pods) ==> pods[i] != nil
+//@     decreases len(podsList.Items) - rangeint_iter
+//@   loop 2
+//@     invariant 0 <= rangeint_iter && rangeint_iter < len(multiFractionsPodsList.Items)
+//@     invariant forall i int :: 0 <= i && i < len(pods) ==> pods[i] != nil
+//@     decreases len(multiFractionsPodsList.Items) - rangeint_iter
+//@   ensures [only-justified-deletes] forall p *v1.Pod :: gone(p) != old(gone(p)) ==> p != nil && gone(p) && (isRes(rsc, p) || (isLive(rsc, p) && p.Status.Phase == "Running"))
+//@ end
+
+// C17: "label patch fails => syncForGpuGroupWithLock runs before the lock is released" (the callee's `requires held`),
+// and the lock is released on every path.
+//@ func (*service).SyncForGpuGroup
+//@   props C17
+//@   requires rsc != nil && rsc.kubeClient != nil && rsc.gpuGroupMutex != nil
+//@   modifies family(gone(nil)), family(gm.held("")), rsc.gpuGroupMutex.mutexMap[*], rsc.gpuGroupMutex.mutexRefsMap[*], lastListCount()
+//@   ensures [lock-released] !gm.held(gpuGroup)
+//@ end
+
+// ---- ReserveGpuDevice ---------------------------------------------------------------------------
+// reservationCreates(): number of reservation pods created; groupLabelStored(p): value of the runai-gpu-group label
+// of pod p in the API store.
+//@ ghost reservationCreates() int
+//@ ghost groupLabelStored(p *v1.Pod) string
+
+// create + wait-for-index: waitForGPUReservationPodAllocation is a select over a watch channel and timers
+// (channels/select are outside the subset); createGPUReservationPod uses rand.String and resource.Quantity.
+//@ func (*service).createGPUReservationPodAndGetIndex
+//@   props C17
+//@   trusted
+//@   note select/channels (waitForGPUReservationPodAllocation), rand.String, resource.NewQuantity: outside the subset; summary taken from the code: one reservation pod is created, "-1" is returned exactly with an error (and the pod is deleted again)
+//@   requires rsc != nil && rsc.kubeClient != nil
+//@   modifies family(gone(nil)), reservationCreates(), lastListCount()
+//@   ensures reservationCreates() == old(reservationCreates()) + 1
+//@   ensures (err != nil) == (gpuIndex == "-1")
+//@ end
+
+// C17: "For every GPU group there is at most one reservation pod" (sequential part, conditional on the lock):
+// find-then-create - a reservation pod is created only when the lookup succeeded and listed none.
+//@ func (*service).acquireGPUIndexByGroup
+//@   props C17
+//@   requires rsc != nil && rsc.kubeClient != nil
+//@   modifies family(gone(nil)), reservationCreates(), lastListCount()
+//@   ensures [at-most-one-create] reservationCreates() <= old(reservationCreates()) + 1
+//@   ensures [found-index-is-reused] result1 == nil && reservationCreates() == old(reservationCreates()) ==> result0 != ""
+//@ end
+
+// Patch(pod, MergeFrom(original)) on the pod: success stores the in-memory runai-gpu-group label.
+//@ func sigs.k8s.io/controller-runtime/pkg/client.WithWatch.Patch
+//@   props C17
+//@   requires obj != nil
+//@   modifies podOf(obj).ResourceVersion, groupLabelStored(podOf(obj))
+//@   ensures result == nil && typeis(obj, "*v1.Pod") ==> groupLabelStored(podOf(obj)) == podOf(obj).Labels["runai-gpu-group"]
+//@   ensures !(result == nil && typeis(obj, "*v1.Pod")) ==> groupLabelStored(podOf(obj)) == old(groupLabelStored(podOf(obj)))
+//@ end
+
+// C17: "success => the pod is labelled with g"
+// single-fraction pod: no gpu-fraction-num-devices annotation, or one that parses to <= 1 (defines of package resources)
+//@ define singleFraction(pod *v1.Pod) bool = !resources.hasCount(pod) || (resources.piOk(resources.countStr(pod)) && resources.piVal(resources.countStr(pod)) <= 1)
+//@ func (*service).updatePodGPUGroup
+//@   props C17
+//@   requires rsc != nil && rsc.kubeClient != nil && pod != nil
+//@   modifies pod.Labels, pod.Labels[*], pod.ResourceVersion, groupLabelStored(pod)
+//@   ensures [single-fraction-pod-labelled-with-the-group] result == nil && old(singleFraction(pod)) ==> groupLabelStored(pod) == gpuGroup
+//@   ensures [failure-leaves-the-stored-label] result != nil ==> groupLabelStored(pod) == old(groupLabelStored(pod))
+//@ end
+
+// C17: "every pod bound into the group is given that reservation pod's device index"; "label patch fails =>
+// syncForGpuGroupWithLock runs before the lock is released" (call-site obligation `requires gm.held` of the callee).
+//@ func (*service).ReserveGpuDevice
+//@   props C17
+//@   requires rsc != nil && rsc.kubeClient != nil && rsc.gpuGroupMutex != nil && pod != nil
+//@   modifies family(gone(nil)), family(gm.held("")), rsc.gpuGroupMutex.mutexMap[*], rsc.gpuGroupMutex.mutexRefsMap[*], lastListCount(), reservationCreates(), pod.Labels, pod.Labels[*], pod.ResourceVersion, groupLabelStored(pod)
+//@   ensures [lock-released] !gm.held(gpuGroup)
+//@   ensures [failure-returns-the-unknown-index] result1 != nil ==> result0 == "-1"
+//@   ensures [success-labels-the-pod] result1 == nil && old(singleFraction(pod)) ==> groupLabelStored(pod) == gpuGroup
+//@   ensures [at-most-one-create] reservationCreates() <= old(reservationCreates()) + 1
 //@ end
